@@ -88,7 +88,7 @@ def config_stream(rep, rng, quick):
     import tempfile
     import gepard as g
     params = {'ns': 0.15, 'al0s': 1.1, 'alps': 0.15, 'ms2': 1.0, 'secs': 0.2, 'al0g': 1.2, 'alpg': 0.15, 'mg2': 0.7,
-              'secg': -0.5, 'this': 0.0, 'thig': 0.0}
+              'secg': -0.5, 'this': 0.0, 'thig': 0.0, 'kaps': 0.7, 'Ens': 0.25, 'Esecs': 0.1}
     configs = [dict(p=0), dict(p=1, scheme='csbar'), dict(p=0, Q02=2.0), dict(p=1, scheme='msbar')] if not quick else \
         [dict(p=0), dict(p=1, scheme='csbar'), dict(p=0, Q02=2.0)]
     bases = ['PWNormGPD', 'MellinBarnesCFF', 'MellinBarnesTFF', 'DIS', 'BMK', 'DVMP']
@@ -101,6 +101,8 @@ def config_stream(rep, rng, quick):
             jobs.append(dict(theory=spec, cfg=ci, op='DISF2', point=dict(xB=xB, Q2=q)))
             jobs.append(dict(theory=spec, cfg=ci, op='predict', observable='ImH', point=dict(xB=xB, Q2=q, t=-0.2)))
             jobs.append(dict(theory=spec, cfg=ci, op='Hx', point=dict(x=xB, eta=0, t=0, Q2=q)))
+            jobs.append(dict(theory=spec, cfg=ci, op='Ex', point=dict(x=xB, eta=xB, t=-0.2, Q2=q)))
+            jobs.append(dict(theory=spec, cfg=ci, op='predict', observable='ImE', point=dict(xB=xB, Q2=q, t=-0.2)))
             jobs.append(dict(theory=spec, cfg=ci, op='predict', observable='XGAMMA',
                              point=dict(W=82., Q2=q, t=-0.2, process='gammastarp2rho0p')))
             jobs.append(dict(theory=spec, cfg=ci, op='predict', observable='XGAMMA',
@@ -124,7 +126,7 @@ def config_stream(rep, rng, quick):
     #      recomputation (TableOK: every stored table is what calc_wce gives now) ----
     import numpy as np
     from gepard import wilson
-    which = {('predict', 'ImH'): 'wce', ('predict', 'XGAMMA', 'gammastarp2gammap'): 'wce',
+    which = {('predict', 'ImH'): 'wce', ('predict', 'ImE'): 'wce', ('predict', 'XGAMMA', 'gammastarp2gammap'): 'wce',
              ('predict', 'XGAMMA', 'gammastarp2rho0p'): 'wce_dvmp', ('DISF2',): 'wce_dis'}
     mlines, mmeta = [], []
     for ci, th in sorted(shared.items()):
